@@ -14,7 +14,6 @@ clock.  The checkers live in vf.refmodel.collector_model.
 """
 from __future__ import annotations
 
-import duet
 import duet.impl as dimpl
 from duet.futuretools import AwaitableFuture, completed_future
 
